@@ -41,7 +41,7 @@ class Harness(cm.BaseB):
                 yield {"k": "trough", "V": chunk["V"], "C": C}
         else:
             for bad in BAD_IDS:
-                for op in ("aspirate", "dispense", "transfer_src", "transfer_dst", "distribute", "evo_aspirate", "evo_dispense", "add", "remove", "dispense0", "add0", "aspirate0", "transfer0"):
+                for op in ("aspirate", "dispense", "transfer_src", "transfer_dst", "distribute", "evo_aspirate", "evo_dispense", "add", "remove", "dispense0", "add0", "aspirate0", "transfer0", "transfer_within_src", "transfer_within_dst", "transfer_within0"):
                     for lw in ("P", "T"):
                         yield {"k": "bad", "dev": chunk["dev"], "op": op, "id": bad, "lw": lw}
             yield {"k": "emit", "dev": chunk["dev"]}
@@ -161,6 +161,10 @@ class Harness(cm.BaseB):
             "add0": ["add", lw, [bad, "A01"], [0, 10], {}],
             "aspirate0": ["aspirate", "w", lw, [bad], 0, {}],
             "transfer0": ["transfer", "w", "Q", ["A01", "B01"], lw, ["A01", bad], [10, 0], {}],
+            # source and destination are the same labware object
+            "transfer_within_src": ["transfer", "w", lw, ["A01", bad], lw, ["A02", "B02"], 10, {}],
+            "transfer_within_dst": ["transfer", "w", lw, ["A01", "A02"], lw, ["B02", bad], 10, {}],
+            "transfer_within0": ["transfer", "w", lw, [bad, "A01"], lw, ["A02", "B02"], [0, 10], {}],
         }[op]
         g = Geo(lw, "plate" if lw == "P" else "trough", 2, 6 if lw == "P" else 3)
         if g.exists(bad):
@@ -174,7 +178,7 @@ class Harness(cm.BaseB):
                 ev[-1] = dict(ev[-1], label="step one")
         out, exc = exec_event(W, ev)
         recs = list(W["wl"]["w"])
-        if labelled and out != "ok" and op not in ("dispense", "transfer_src", "transfer_dst", "evo_dispense", "remove", "add", "dispense0", "add0", "transfer0") and recs:
+        if labelled and out != "ok" and op not in ("dispense", "transfer_src", "transfer_dst", "evo_dispense", "remove", "add", "dispense0", "add0", "transfer0", "transfer_within_src", "transfer_within_dst") and recs:
             # nothing was pipetted by this call, so not even its comment may stay behind
             return f"bad:{op}:{out}", repr(case), [("C08/record-for-nonexistent-well", f"{case['dev']}.{op} with label on {lw} well {bad!r} raised but left {recs}")]
         V = []
